@@ -54,11 +54,18 @@ func protoTLS() *Proto {
 // recordingConn records what the TLS client writes and reports EOF on reads.
 type recordingConn struct{ wrote []byte }
 
-func (c *recordingConn) Read([]byte) (int, error)         { return 0, io.EOF }
-func (c *recordingConn) Write(p []byte) (int, error)      { c.wrote = append(c.wrote, p...); return len(p), nil }
-func (c *recordingConn) Close() error                     { return nil }
-func (c *recordingConn) LocalAddr() net.Addr              { return &net.TCPAddr{IP: FakeRemoteIP, Port: FakeRemotePort} }
-func (c *recordingConn) RemoteAddr() net.Addr             { return &net.TCPAddr{IP: FakeLocalIP, Port: FakeLocalPort} }
+func (c *recordingConn) Read([]byte) (int, error) { return 0, io.EOF }
+func (c *recordingConn) Write(p []byte) (int, error) {
+	c.wrote = append(c.wrote, p...)
+	return len(p), nil
+}
+func (c *recordingConn) Close() error { return nil }
+func (c *recordingConn) LocalAddr() net.Addr {
+	return &net.TCPAddr{IP: FakeRemoteIP, Port: FakeRemotePort}
+}
+func (c *recordingConn) RemoteAddr() net.Addr {
+	return &net.TCPAddr{IP: FakeLocalIP, Port: FakeLocalPort}
+}
 func (c *recordingConn) SetDeadline(time.Time) error      { return nil }
 func (c *recordingConn) SetReadDeadline(time.Time) error  { return nil }
 func (c *recordingConn) SetWriteDeadline(time.Time) error { return nil }
